@@ -71,8 +71,20 @@ def main(tier, seed):
         ("guard_inequality_multi", "c = 0\nx = 1\nwhile c < 3:\n    c = c + 1 {1/2} c + 2 {1/4} c\n    x = 2*x\nend\n", ["x", "c", "c*x"], {"c": [0, 1, 2, 3, 4]}),
         ("guard_trap", "c = 0\nx = 0\nwhile c < 3:\n    x = x + 1\n    if c == 0:\n        c = 1 {1/3} 3 {1/3} 0\n    end\nend\n", ["x", "c"], {"c": [0, 1, 3]}),
     ]
+    # the body of the guarded loop is a single if-statement (or a chain of them): the branch condition is not part of
+    # the guard, the loop stops only when the guard is false
+    shapes += [
+        ("body_is_one_if", "stop = 0\nc = 0\nx = 0\nwhile stop == 0:\n    if c == 0:\n        x = x + 1\n        c = Bernoulli(1/2)\n        stop = Bernoulli(1/4)\n    end\nend\n",
+         ["stop", "x", "c", "x*stop"], {}),
+        ("body_is_nested_ifs", "stop = 0\nc = 0\nd = 0\nx = 0\nwhile stop == 0:\n    if c == 0:\n        if d == 0:\n            x = x + 2\n            d = Bernoulli(1/3)\n            c = Bernoulli(1/5)\n            stop = Bernoulli(1/2)\n        end\n    end\nend\n",
+         ["stop", "x", "d"], {}),
+        ("body_is_one_if_stop_outside_possible", "stop = 0\nc = 0\nx = 0\nwhile stop == 0:\n    if c == 0:\n        x = x + 1\n        c = Bernoulli(1/2)\n    end\n    stop = Bernoulli(1/4)\nend\n",
+         ["stop", "x", "c"], {}),
+    ]
     for name, text, goals, types in shapes:
-        decl = "types\n" + "".join(f"    {v} : Finite({', '.join(map(str, vals))})\n" for v, vals in types.items()) + "end\n"
+        decl = "" if not types else "types\n" + "".join(f"    {v} : Finite({', '.join(map(str, vals))})\n" for v, vals in types.items()) + "end\n"
+        if not types:
+            decl = ""
         items.append({"id": "gshape-" + name, "text": decl + text, "T": None, "goals": goals, "points": [{}],
                       "origin": "fixed guarded shape " + name, "types": types})
     gen_items = C.generated(seed, 30 if quick else 250, profile={"guard": "flag"}, ngoals=3) + \
